@@ -166,4 +166,32 @@ theorem eq_of_intact {s s' : Struct}
   · left; subst hp; rfl
   · right; subst hp; rfl
 
+theorem bits_colonSet (i : Nat) : (W.spaceAfterColon ||| one).getLsbD i = (decide (i = 0) || decide (i = 12)) :=
+  bits_of_const _ (fun i => decide (i = 0) || decide (i = 12)) (by decide) (by intro i hi; simp; omega) i
+theorem bits_comma (i : Nat) : W.spaceAfterComma.getLsbD i = decide (i = 13) :=
+  bits_of_const _ (fun i => decide (i = 13)) (by decide) (by intro i hi; simp; omega) i
+theorem bits_indentSet (i : Nat) : (W.indent ||| one).getLsbD i = (decide (i = 0) || decide (i = 14)) :=
+  bits_of_const _ (fun i => decide (i = 0) || decide (i = 14)) (by decide) (by intro i hi; simp; omega) i
+
+/-- `InitializeMultiline` touches only SpaceAfterColon (12), SpaceAfterComma (13), Indent (14). -/
+theorem initializeMultiline_lookup (j : Struct) (i : Nat) (h12 : i ≠ 12) (h13 : i ≠ 13) (h14 : i ≠ 14) :
+    (initializeMultiline j).flags.lookup i = j.flags.lookup i := by
+  have e1 : (imColon j).flags.lookup i = j.flags.lookup i := by
+    unfold imColon; split
+    · show (j.flags.set _).lookup i = _
+      rw [lookup_set, bits_colonSet]; by_cases h0 : i = 0 <;> simp [h0, h12]
+    · rfl
+  have e2 : (imComma (imColon j)).flags.lookup i = (imColon j).flags.lookup i := by
+    unfold imComma; split
+    · show ((imColon j).flags.set _).lookup i = _
+      rw [lookup_set, bits_comma]; simp [h13]
+    · rfl
+  have e3 : (imIndent (imComma (imColon j))).flags.lookup i = (imComma (imColon j)).flags.lookup i := by
+    unfold imIndent; split
+    · show ((imComma (imColon j)).flags.set _).lookup i = _
+      rw [lookup_set, bits_indentSet]; by_cases h0 : i = 0 <;> simp [h0, h14]
+    · rfl
+  unfold initializeMultiline
+  rw [e3, e2, e1]
+
 end JsonV.Lemmas.ScopePub
